@@ -318,6 +318,10 @@ fn main_random(args: &[String]) {
     let ops = util::arg_u64(args, "ops", 40);
     let nvals = util::arg_u64(args, "nvals", 4) as u8;
     let out = util::arg(args, "out").expect("out=");
+    // burst=N: every run starts with a Suspend-free (Noop) barrier that accepts every value and N..2N
+    // matching triggers (async and sync, from all sources) before the first wait; the drain at the end
+    // must then see every one of them, in trigger order.
+    let burst = util::arg_u64(args, "burst", 0);
     let rt = tokio::runtime::Builder::new_current_thread().enable_time().start_paused(true).build().unwrap();
     let _g = rt.enter();
     std::panic::set_hook(Box::new(|_| {}));
@@ -328,6 +332,31 @@ fn main_random(args: &[String]) {
         let _ = rec::take();
         let mut w = World::new(nsrc);
         let panic_ok = rng.random_bool(0.5);
+        if burst > 0 {
+            w.build("Noop", (1..=nvals).collect());
+            let n = rng.random_range(burst..=2 * burst);
+            for _ in 0..n {
+                let s = rng.random_range(1..=nsrc);
+                let v = rng.random_range(1..=nvals);
+                let sync = rng.random_bool(0.3);
+                // a source that got stuck inside a call is polled instead (its poll_end records that it is stuck)
+                if w.poll_src(s, Some((v, sync))) {
+                    ntrig += 1;
+                } else {
+                    w.poll_src(s, None);
+                }
+            }
+            // drain: every trigger of the burst must come out, in trigger order
+            loop {
+                let before = w.handles.len();
+                w.wait(1);
+                if w.handles.len() == before {
+                    break;
+                }
+                nwait += 1;
+                nhit += 1;
+            }
+        }
         for op in 0..ops {
             match if op < 2 { 0 } else { rng.random_range(0..100) } {
                 0..10 => {
